@@ -60,6 +60,11 @@ func getSubnetsHkdf(sc genericSubnetConfig, seed []byte, weighted bool) ([]*phan
 			return choices[i].GetWeight() < choices[j].GetWeight()
 		})
 
+		if totWeight <= 0 {
+			// rand.Int panics for a non-positive bound
+			return nil, fmt.Errorf("no phantom subnets with a positive weight to select from")
+		}
+
 		// Naive method: get random int, subtract from weights until you are < 0
 		hkdfReader := hkdf.New(sha256.New, seed, nil, []byte("phantom-select-subnet"))
 		totWeightBig := big.NewInt(totWeight)
